@@ -34,7 +34,7 @@ NIL = -1
 
 def generate(rng, tier, idx):
     metrics = gen.SAFE_METRICS if idx % 3 else gen.SYMMETRIC_DISSIMILARITIES
-    return knncase.gen_knn_case(rng, tier, model=("knn" if idx % 2 else "unsup"), metrics=metrics)
+    return knncase.gen_knn_case(rng, tier, model=("knn" if idx % 2 else "unsup"), metrics=metrics, allow_pre=True)
 
 
 def _snap(sg):
@@ -120,7 +120,7 @@ def check(case):
 
     cls = mk.KNNSupervisedOPF if kind == "knn" else mu.UnsupervisedOPF
     with hooks.patched(rec, [(cls, "_clustering", None, after_clustering)] + hooks.heap_targets()):
-        m, call = knncase.fit_model(case)
+        m, call = knncase.fit_model(case, before_final=rec.events.clear)
     if not call.ok:
         if is_library_domain_error(call.exc):
             return res.reject("library-domain-error")
